@@ -88,6 +88,10 @@ def run_unit(unit, progress):
             # another one: a task reached twice in one traversal is unblocked in between by a sibling's item.value()
             prog = gen.revisit_program(random.Random(cs))
             inc("revisit_programs")
+        elif i % 16 == 4:
+            # one cached error object raised by several children and caught again and again by one running body
+            prog = gen.recatch_program(random.Random(cs), leafs=("none", "const", "item", "item"))
+            inc("recatch_programs")
         else:
             prog = gen.generate(cs, prof)
         if prog.get("shared"):
